@@ -770,3 +770,92 @@ Qed.
 Theorem cli_no_key_no_output sha gcm_dec gcm_ok file aad :
   cli sha gcm_dec gcm_ok file Err aad = (Err, Absent) \/ cli sha gcm_dec gcm_ok file Err aad = (Fuel, Absent).
 Proof. unfold cli. destruct (env_open file); auto. Qed.
+
+(* ================================================================== concrete objects (non-vacuity, refutation) *)
+Definition ex_key : list Z := repz 7 32.
+Definition ex_iv : list Z := [1; 2; 3; 4; 5; 6; 7; 8; 9; 10; 11; 12].
+Definition ex_sha (x : list Z) : list Z := takez (x ++ repz 0 32) 32.    (* any function will do *)
+Definition nm (k : Z) : list Z := [120; 46; 65 + k].                     (* "x.A", "x.B", ... *)
+
+(* the four attributes a writer stores + one attribute of every one of the 12 types, required ones not first *)
+Definition ex_attrs : list attr := [
+  mk_attr (nm 1) 1 0 (VInt 255); mk_attr (nm 2) 2 1 (VInt 65535);
+  mk_attr N_keyHash 12 0 (VBytes (ex_sha (CIPHER ++ ex_key)));
+  mk_attr (nm 3) 3 2 (VInt 4294967295); mk_attr (nm 4) 4 0 (VInt 18446744073709551615);
+  mk_attr N_iv 12 0 (VBytes ex_iv);
+  mk_attr (nm 5) 5 128 (VInt (-128)); mk_attr (nm 6) 6 255 (VInt (-1)); mk_attr (nm 7) 7 0 (VInt (-2147483648));
+  mk_attr (nm 8) 8 0 (VInt 9223372036854775807);
+  mk_attr N_cipherName 11 0 (VStr CIPHER);
+  mk_attr (nm 9) 9 0 (VF32 2143289345) (* a quiet NaN with payload *); mk_attr (nm 10) 10 0 (VF64 9218868437227405313) (* a signalling NaN *);
+  mk_attr [195; 169] 11 0 (VStr [230; 151; 165; 0 + 230; 156; 172]) (* UTF-8 name and value *);
+  mk_attr (nm 12) 12 7 (VBytes [0; 0; 255]);
+  mk_attr N_keyInfo 11 0 (VStr [55; 101])
+].
+
+Lemma nonul_dec s : forallb (fun c => negb (c =? 0)) s = true -> nonul s.
+Proof.
+  intros H. apply Forall_forall. intros c Hc. rewrite forallb_forall in H. specialize (H c Hc).
+  apply negb_true_iff, Z.eqb_neq in H. exact H.
+Qed.
+
+Fixpoint nodupb (l : list (list Z)) : bool :=
+  match l with [] => true | x :: r => negb (existsb (beq x) r) && nodupb r end.
+
+Lemma nodupb_sound l : nodupb l = true -> NoDup l.
+Proof.
+  induction l as [|x r IH]; cbn [nodupb]; intros H; constructor.
+  - apply andb_true_iff in H as [H _]. apply negb_true_iff in H. intros Hin.
+    assert (existsb (beq x) r = true) by (apply existsb_exists; exists x; split; [exact Hin|apply beq_refl]).
+    congruence.
+  - apply IH. now apply andb_true_iff in H as [_ H].
+Qed.
+
+Ltac wf_name := split; [apply nonul_dec; reflexivity | split; [reflexivity | cbn [wf_val a_type a_val]]].
+Ltac wf_int := wf_name; cbn; lia.
+Ltac wf_bytes := wf_name; split; [reflexivity | vm_compute; reflexivity].
+Ltac wf_str := wf_name; split; [reflexivity | split; [apply nonul_dec; reflexivity | reflexivity]].
+Ltac wf_f32 := wf_name; split; [reflexivity | split; [cbn; lia | reflexivity]].
+Ltac wf_f64 := wf_name; split; [reflexivity | cbn; lia].
+
+Lemma ex_attrs_wf : wf_attrs ex_attrs.
+Proof.
+  split.
+  - unfold ex_attrs.
+    apply Forall_cons; [wf_int|]. apply Forall_cons; [wf_int|]. apply Forall_cons; [wf_bytes|].
+    apply Forall_cons; [wf_int|]. apply Forall_cons; [wf_int|]. apply Forall_cons; [wf_bytes|].
+    apply Forall_cons; [wf_int|]. apply Forall_cons; [wf_int|]. apply Forall_cons; [wf_int|].
+    apply Forall_cons; [wf_int|]. apply Forall_cons; [wf_str|]. apply Forall_cons; [wf_f32|].
+    apply Forall_cons; [wf_f64|]. apply Forall_cons; [wf_str|]. apply Forall_cons; [wf_bytes|].
+    apply Forall_cons; [wf_str|]. apply Forall_nil.
+  - apply nodupb_sound. reflexivity.
+Qed.
+
+Lemma ex_attrs_fits : fits ex_attrs.
+Proof.
+  destruct (pack_attr_list ex_attrs) as [p| |] eqn:E; try (vm_compute in E; discriminate).
+  exists p. split; [exact E|]. vm_compute in E. injection E as <-. vm_compute. discriminate.
+Qed.
+
+Lemma ex_attrs_sealed : sealed_attrs ex_sha ex_attrs ex_key ex_iv.
+Proof. repeat split; eexists; split; reflexivity || (vm_compute; reflexivity). Qed.
+
+(* a stored header holding a Float attribute with a signalling-NaN pattern: the reader opens it, but
+   _pack_envelope_header does NOT reproduce it (bit 22 gets set) — why the stored block, not its
+   re-serialisation, has to be the associated data *)
+Definition ex_snan_attr_bytes : list Z := [9; 0; 0; 0; 102; 0; 1; 0; 128; 127].   (* Float "f" = 0x7F800001 *)
+Definition ex_snan_hdr : list Z :=
+  let body := ex_snan_attr_bytes ++ match pack_attrs ex_attrs with Ok p => p | _ => [] end in
+  header_struct (BLOCK - HDR) 2 ++ body ++ repz 0 (BLOCK - HDR - len body).
+
+Lemma ex_snan_repack_differs :
+  exists attrs hdr', header_opens ex_snan_hdr attrs /\ pack_header attrs 2 = Ok hdr' /\
+                     len hdr' = len ex_snan_hdr /\ beq hdr' ex_snan_hdr = false.
+Proof.
+  destruct (read_attributes (dropz ex_snan_hdr HDR)) as [attrs| |] eqn:E; try (vm_compute in E; discriminate).
+  destruct (pack_header attrs 2) as [h| |] eqn:P;
+    try (vm_compute in E; injection E as <-; vm_compute in P; discriminate).
+  exists attrs, h. split; [|split; [exact P|]].
+  - unfold header_opens. split; [vm_compute; reflexivity|]. split; [vm_compute; reflexivity|].
+    split; [vm_compute; reflexivity|exact E].
+  - vm_compute in E. injection E as <-. vm_compute in P. injection P as <-. split; vm_compute; reflexivity.
+Qed.
